@@ -87,6 +87,34 @@ def common(ctx):
             if ctx.prop in ("C01", "C02", "C03"):  # properties that quantify over n-partite operators with separate row / column dimensions
                 r_subsystem_count(ctx, f)
 
+    # the same hygiene rules over the transitive callee closure of the functions analysed so far (both tiers; a convention break in a
+    # helper three calls down changes what the anchored function computes): reported with the shortest call chain.  These obligations
+    # exist only as long as the call exists, so they are not part of the confirmed-obligation list (ctx.closure_keys).
+    ctx.closure_keys = set()
+    try:
+        from .sweep import _chains
+
+        base = set(ctx.analysed_functions)
+        roots = [ctx.model.functions[q] for q in sorted(base) if q in ctx.model.functions]
+        chain_of = _chains(ctx.model, roots)
+        before = {o.key for o in ctx.obs}
+        for g in sorted(ctx.model.callees_closure(list(roots)), key=lambda x: x.qualname):
+            if g.qualname in base or ".tests." in g.qualname:
+                continue
+            ch = chain_of.get(g.qualname, [])
+            r_scalar_dim_expand(ctx, g, chain=ch)
+            r_scalar_dim_bipartite(ctx, g, chain=ch)
+            r_default_dim_table(ctx, g, chain=ch)
+            r_chunk_tail(ctx, g, chain=ch)
+            r_oneshot_iterator(ctx, g, chain=ch)
+            r_roots_rounded(ctx, g, chain=ch)
+            r_fresh_result(ctx, g, chain=ch)
+            r_hermitian_solver_operand(ctx, g, chain=ch)
+        ctx.closure_keys = {o.key for o in ctx.obs} - before
+        ctx.analysed_functions = base
+    except (KeyError, AttributeError):
+        pass
+
 
 def run_property(pid: str, tier: str, model=None):
     model = model or RepoModel()
